@@ -1,10 +1,18 @@
 #!/bin/bash
 # run_mutant.sh <seeded-dir> <prop>... — apply a seeded change to /repo, run the given checks (quick), undo it.
+# The evidence files are saved and restored: evidence committed to git must come from runs on the unchanged tree.
 S=$1; shift
 cd /repo && git status --short | grep -q . && { echo "/repo not clean"; exit 2; }
+rm -rf /tmp/evidence.keep && cp -r /verif/evidence /tmp/evidence.keep
 git -C /repo apply "$S/patch.diff" || { echo "patch does not apply"; exit 2; }
 for p in "$@"; do
   echo "== $p under $(basename $S)"
-  (cd /verif && timeout 1500 bin/vcheck $p --tier quick | grep -E "VIOLATION|KNOWN" | grep -v KNOWN | head -3)
+  (cd /verif && timeout 1500 bin/vcheck $p --tier quick | grep -E "VIOLATION" | head -3)
 done
 git -C /repo checkout -- . ; git -C /repo status --short | head -3
+rm -rf /verif/evidence && mv /tmp/evidence.keep /verif/evidence
+# the harness binary was built from the changed tree: rebuild it from the restored sources
+(cd /verif && python3 -c "
+import sys; sys.path.insert(0,'/verif')
+from vlib import build
+build.build_harness()" >/dev/null 2>&1)
